@@ -103,7 +103,8 @@ pub fn generate(r: &mut Prng, seed: u64, run: u64) -> Scenario {
             (id, format!("only-failing-{id}"))
         } else {
             let x = r.pick(facts.recs(kind));
-            (x.id, x.name.clone())
+            // the rejected call may carry another name than the one the record is known under
+            (x.id, if r.chance(1, 3) { format!("{}-as-named-by-the-rejected-call", x.name) } else { x.name.clone() })
         };
         let op = Op::Annotate { kind, id, name, term: t };
         let pos = if r.chance(1, 2) { 0 } else { r.usize_below(anns.len() + 1) };
